@@ -71,6 +71,10 @@ TOTAL_FAMILY = {
 def plan(label, fn):
     """-> list of (family, predicate, description)"""
     m = re.match(r"^C09\.([a-z0-9_]+)\.([a-z_]+)$", label)
+    if m and m.group(1) == "parse_g1":
+        # the shared G1 point parser: every decoder that uses it, plus the public-data forgery family
+        import families_ext
+        return [(f, families_ext._viol, "decoder accepts a string that is not the strict encoding of a valid object / forged proof accepted") for f in ("sig", "pok", "commitment", "forgery", "sig_allflips")]
     if m and m.group(1) in CODEC_FAMILY:
         fam = CODEC_FAMILY[m.group(1)]
         kind = m.group(2)
